@@ -1,4 +1,5 @@
 INIT Init
 NEXT Next
+CONSTANT SelFixed = FALSE
 INVARIANT Accepted
 CHECK_DEADLOCK FALSE
